@@ -1,9 +1,10 @@
-package c01
+package blaskit
 
 import (
 	"fmt"
 	"math"
 	"math/cmplx"
+	"unsafe"
 
 	"verifharness/vk"
 )
@@ -136,24 +137,47 @@ type buf[T num] struct {
 	// hermDiag marks parent indices that hold the diagonal of a Hermitian
 	// output: imaginary part must be exactly zero after a non-quick-return call.
 	hermDiag map[int]bool
+	need     int // addressed extent (minimal legal slice length)
 	// ignoreImag marks parent indices whose imaginary part is documented as
 	// ignored on input (Hermitian diagonals).
 }
 
 // alloc creates a buffer with need addressed-extent elements, pre/post sentinel
-// padding outside the slice and tail extra elements inside the slice.
-func alloc[T num](name string, need, pre, post, tail int, trim bool) *buf[T] {
+// padding outside the slice and tail extra elements inside the slice. With
+// l.guard set the slice abuts an inaccessible page at its end ("end": no post
+// padding, no tail) or at its start ("start": no pre padding).
+func alloc[T num](name string, need, pre, post, tail int, trim bool, l *layout) *buf[T] {
+	guard := ""
+	if l != nil {
+		guard = l.guard
+	}
+	switch guard {
+	case "end":
+		post, tail = 0, 0
+	case "start":
+		pre = 0
+	}
 	total := pre + need + tail + post
-	p := make([]T, total)
+	var p []T
+	if guard != "" && total > 0 {
+		var z T
+		sz := int(unsafe.Sizeof(z))
+		raw, free := vk.GuardedBytes(total*sz, guard == "end")
+		l.frees = append(l.frees, free)
+		p = unsafe.Slice((*T)(unsafe.Pointer(&raw[0])), total)
+	} else {
+		p = make([]T, total)
+	}
 	for i := range p {
 		p[i] = sentinel[T](i)
 	}
 	b := &buf[T]{name: name, parent: p, off: pre}
-	if trim {
+	if trim || guard == "end" {
 		b.s = p[pre : pre+need+tail : pre+need+tail]
 	} else {
 		b.s = p[pre : pre+need+tail]
 	}
+	b.need = need
 	b.expect = make([]int, total)
 	for i := range b.expect {
 		b.expect[i] = -1
@@ -245,11 +269,13 @@ func vecNeed(n, inc int) int {
 type layout struct {
 	pre, post, tail int
 	trim            bool
+	guard           string
+	frees           []func()
 }
 
-func makeVec[T num](name string, vals []complex128, inc int, l layout) *buf[T] {
+func makeVec[T num](name string, vals []complex128, inc int, l *layout) *buf[T] {
 	n := len(vals)
-	b := alloc[T](name, vecNeed(n, inc), l.pre, l.post, l.tail, l.trim)
+	b := alloc[T](name, vecNeed(n, inc), l.pre, l.post, l.tail, l.trim, l)
 	for i, v := range vals {
 		b.put(vecPos(i, n, inc), v)
 	}
@@ -265,8 +291,8 @@ func geNeed(r, c, ld int) int {
 	return (r-1)*ld + c
 }
 
-func makeGe[T num](name string, m cmat, ld int, l layout) *buf[T] {
-	b := alloc[T](name, geNeed(m.r, m.c, ld), l.pre, l.post, l.tail, l.trim)
+func makeGe[T num](name string, m cmat, ld int, l *layout) *buf[T] {
+	b := alloc[T](name, geNeed(m.r, m.c, ld), l.pre, l.post, l.tail, l.trim, l)
 	for i := 0; i < m.r; i++ {
 		for j := 0; j < m.c; j++ {
 			b.put(i*ld+j, m.at(i, j))
@@ -287,9 +313,9 @@ func inTri(uplo byte, i, j int) bool {
 // ld; the other triangle keeps sentinels. With unit set the diagonal is not
 // referenced either. With hermGarbage the imaginary parts of the diagonal hold
 // a finite garbage value (documented as ignored).
-func makeTri[T num](name string, m cmat, uplo byte, ld int, unit, hermGarbage bool, l layout) *buf[T] {
+func makeTri[T num](name string, m cmat, uplo byte, ld int, unit, hermGarbage bool, l *layout) *buf[T] {
 	n := m.r
-	b := alloc[T](name, geNeed(n, n, ld), l.pre, l.post, l.tail, l.trim)
+	b := alloc[T](name, geNeed(n, n, ld), l.pre, l.post, l.tail, l.trim, l)
 	for i := 0; i < n; i++ {
 		for j := 0; j < n; j++ {
 			if !inTri(uplo, i, j) || (unit && i == j) {
@@ -312,9 +338,9 @@ func packedIdx(uplo byte, n, i, j int) int {
 	return i*(i+1)/2 + j
 }
 
-func makePacked[T num](name string, m cmat, uplo byte, unit, hermGarbage bool, l layout) *buf[T] {
+func makePacked[T num](name string, m cmat, uplo byte, unit, hermGarbage bool, l *layout) *buf[T] {
 	n := m.r
-	b := alloc[T](name, n*(n+1)/2, l.pre, l.post, l.tail, l.trim)
+	b := alloc[T](name, n*(n+1)/2, l.pre, l.post, l.tail, l.trim, l)
 	for i := 0; i < n; i++ {
 		for j := 0; j < n; j++ {
 			if !inTri(uplo, i, j) {
@@ -350,8 +376,8 @@ func gbNeed(m, n, kl, ku, ld int) int {
 	return ld*(rows-1) + kl + ku + 1
 }
 
-func makeGB[T num](name string, a cmat, kl, ku, ld int, l layout) *buf[T] {
-	b := alloc[T](name, gbNeed(a.r, a.c, kl, ku, ld), l.pre, l.post, l.tail, l.trim)
+func makeGB[T num](name string, a cmat, kl, ku, ld int, l *layout) *buf[T] {
+	b := alloc[T](name, gbNeed(a.r, a.c, kl, ku, ld), l.pre, l.post, l.tail, l.trim, l)
 	for i := 0; i < a.r; i++ {
 		for j := max(0, i-kl); j <= min(a.c-1, i+ku); j++ {
 			b.put(gbIdx(kl, ld, i, j), a.at(i, j))
@@ -382,9 +408,9 @@ func inBandTri(uplo byte, k, i, j int) bool {
 	return j <= i && j >= i-k
 }
 
-func makeTB[T num](name string, a cmat, uplo byte, k, ld int, unit, hermGarbage bool, l layout) *buf[T] {
+func makeTB[T num](name string, a cmat, uplo byte, k, ld int, unit, hermGarbage bool, l *layout) *buf[T] {
 	n := a.r
-	b := alloc[T](name, tbNeed(n, k, ld), l.pre, l.post, l.tail, l.trim)
+	b := alloc[T](name, tbNeed(n, k, ld), l.pre, l.post, l.tail, l.trim, l)
 	for i := 0; i < n; i++ {
 		for j := 0; j < n; j++ {
 			if !inBandTri(uplo, k, i, j) || (unit && i == j) {
